@@ -2,6 +2,7 @@ import PsVerif.Driver.Util
 import PsVerif.Model.Observe
 import PsVerif.Model.AbsC06
 import PsVerif.Model.AbsMk
+import PsVerif.Model.AbsNg
 /- line-protocol front end for the abstract-engine trace inclusion -/
 namespace PsVerif.Driver
 open PsVerif PsVerif.Gen PsVerif.Model.Abs
@@ -11,6 +12,7 @@ inductive AbsState where
   | none
   | c06 (sys : Sys Model.AbsC06.F) (S : List (MC Model.AbsC06.F))
   | mk (sys : Sys Model.AbsMk.F) (S : List (MC Model.AbsMk.F))
+  | ng (sys : Sys Model.AbsNg.F) (S : List (MC Model.AbsNg.F))
 
 def role? (s : String) : Option Role := Role.ofName s
 
@@ -32,6 +34,11 @@ def mkF? (s : String) : Option Model.AbsMk.F :=
     | _ => Option.none
   | [] => Option.none
 
+def ngF? (s : String) : Option Model.AbsNg.F :=
+  match bits? s with
+  | some [a, b, c, d] => some ((((Model.AbsNg.F.init.setTimerArmed a).setRequestSent b).setCancelTried c).setCancelRecv d)
+  | _ => Option.none
+
 def tableOf : Role → List Row := Gen.table
 
 def handleAbs (st : AbsState) : List String → Option (AbsState × String)
@@ -43,8 +50,16 @@ def handleAbs (st : AbsState) : List String → Option (AbsState × String)
     let r ← role? role
     let sys := Model.AbsMk.sys (tableOf r) ⟨r == .SwapInSender, ← bool? cib, ← bool? sf, ← bool? pf⟩
     pure (.mk sys [initMC sys], "ok")
+  | ["abs.reset", "Ng", role] => do
+    let r ← role? role
+    let sys := Model.AbsNg.sys (tableOf r)
+    pure (.ng sys [initMC sys], "ok")
   | ["abs.persist", s, fl] =>
     match st with
+    | .ng sys S => do
+      let s' ← St.ofName (if s == "-" then "" else s)
+      let S' := obsPersist sys S s' (← ngF? fl)
+      pure (.ng sys S', if S'.isEmpty then "REJECT" else "ok")
     | .mk sys S => do
       let s' ← St.ofName (if s == "-" then "" else s)
       let S' := obsPersist sys S s' (← mkF? fl)
@@ -56,6 +71,9 @@ def handleAbs (st : AbsState) : List String → Option (AbsState × String)
     | .none => some (st, "no-abstraction")
   | ["abs.crash"] =>
     match st with
+    | .ng sys S =>
+      let S' := obsCrash sys S
+      some (.ng sys S', if S'.isEmpty then "REJECT" else "ok")
     | .mk sys S =>
       let S' := obsCrash sys S
       some (.mk sys S', if S'.isEmpty then "REJECT" else "ok")
